@@ -106,6 +106,10 @@ type Cfg struct {
 	RowsV2         bool   // rows events v2 (30..32) instead of v1 (23..25)
 	GTIDPostHeader int    // 25 (5.6) or 42 (5.7+)
 	ServerID       uint32
+	// PadOnes sets the unused high bits of the last byte of the presence and
+	// NULL bitmaps of rows events (servers set them, bitmap_set_all; a reader
+	// must ignore them).
+	PadOnes bool
 }
 
 // DefaultCfg is a 5.7-like configuration.
@@ -407,6 +411,15 @@ func Bitmap(bits []bool) []byte {
 	return b
 }
 
+// rowsBitmap packs a presence / NULL bitmap of a rows event.
+func (c *Cfg) rowsBitmap(bits []bool) []byte {
+	b := Bitmap(bits)
+	if c.PadOnes && len(bits)%8 != 0 && len(b) > 0 {
+		b[len(b)-1] |= 0xff << uint(len(bits)%8)
+	}
+	return b
+}
+
 func (c *Cfg) tableID(id uint64) []byte {
 	if c.TableID4 {
 		return le32(uint32(id))
@@ -475,18 +488,18 @@ func (c *Cfg) RowsBody(k RowsKind, tableID uint64, flags uint16, extra []byte, n
 	}
 	b = append(b, Lenenc(uint64(ncols))...)
 	if k == KUpdate || k == KDelete {
-		b = append(b, Bitmap(presentBefore)...)
+		b = append(b, c.rowsBitmap(presentBefore)...)
 	}
 	if k == KWrite || k == KUpdate {
-		b = append(b, Bitmap(presentAfter)...)
+		b = append(b, c.rowsBitmap(presentAfter)...)
 	}
 	for _, r := range rows {
 		if k == KUpdate || k == KDelete {
-			b = append(b, Bitmap(r.BeforeNull)...)
+			b = append(b, c.rowsBitmap(r.BeforeNull)...)
 			b = append(b, r.Before...)
 		}
 		if k == KWrite || k == KUpdate {
-			b = append(b, Bitmap(r.AfterNull)...)
+			b = append(b, c.rowsBitmap(r.AfterNull)...)
 			b = append(b, r.After...)
 		}
 	}
